@@ -111,6 +111,17 @@ def cases(ctx):
         c = fam_case(argv, rnd, rng)
         c.info["seed"] = seed
         out.append(c)
+    # random graph arguments (drawn while parsing) followed by families that draw at build time: both tools
+    # must make the same choices for the same seed
+    from harness.props import C07 as H07
+    extra = [["tseitin", "randomeven", "gnd", "8", "3"], ["tseitin", "randomeven", "gnm", "6", "8"],
+             ["tseitin", "random", "gnp", "6", ".6"], ["tseitin", "randomeven", "gnp", "7", ".5", "addedges", "2"]]
+    for cmd in H07.RANDOM_CMDS + extra:
+        if "-T" in cmd or cmd[0] == "pitfall":
+            continue
+        c = fam_case(list(cmd), True, rng)
+        c.info["seed"] = seed
+        out.append(c)
     for _ in range(400 if tier == "quick" else 6000):
         n = rng.choice([0, 1, 2, 3, 4, 5, 6, 7])
         lits = rng.lits(n, maxvar=n + 2)
